@@ -60,11 +60,12 @@ SInit == /\ Unused
 Reads == Cardinality({k \in 1..Len(log) : log[k] = "read"})
 Adds == Cardinality({k \in 1..Len(log) : log[k] = "add"})
 Sets == Cardinality({k \in 1..Len(log) : log[k] = "set"})
+AddVoids == Cardinality({k \in 1..Len(log) : log[k] = "addvoid"})
 (* the smoothers handed to set_smoother: every axis gets another kernel than it was built with *)
 AltKernel(k, ne) == IF ne < 2 THEN <<>> ELSE IF k = <<1, 2, 1>> THEN <<1, 2, 4, 2, 1>> ELSE <<1, 2, 1>>
 AltSmo == [a \in 1..NAx |-> AltKernel(smo0[a], shape[a])]
 (* r.dataSmooth *)
-ReadCached == /\ pc = "idle" /\ cache # <<>> /\ Reads < 2 + Adds + Sets
+ReadCached == /\ pc = "idle" /\ cache # <<>> /\ Reads < 2 + Adds + Sets + AddVoids
               /\ obs' = cache /\ log' = Append(log, "read")
               /\ UNCHANGED <<shape, rank, smo, smo0, data, b, pc, ax, tmp, cache>> /\ UNCHANGED vars
 ReadStart == /\ pc = "idle" /\ cache = <<>>
@@ -78,18 +79,22 @@ LoopEnd == /\ pc = "loop" /\ ax = 0
            /\ cache' = <<tmp>> /\ obs' = <<tmp>> /\ pc' = "idle" /\ tmp' = <<>> /\ log' = Append(log, "read")
            /\ UNCHANGED <<shape, rank, smo, smo0, data, b, ax>> /\ UNCHANGED vars
 (* r.add(other) : self.data += other.data *)
-AddInPlaceData == /\ pc = "idle" /\ Adds < MaxAdds /\ Adds + Sets < MaxMut
+AddInPlaceData == /\ pc = "idle" /\ Adds < MaxAdds /\ Adds + Sets + AddVoids < MaxMut
                   /\ data' = [p \in 1..Len(data) |-> data[p] + b[p]]
                   /\ cache' = IF "stalecache" \in Wrong THEN cache ELSE <<>>
                   /\ obs' = <<>> /\ log' = Append(log, "add")
                   /\ UNCHANGED <<shape, rank, smo, smo0, b, pc, ax, tmp>> /\ UNCHANGED vars
 (* r.set_smoother(AltSmo) *)
-SetSmoother == /\ pc = "idle" /\ Sets < MaxSets /\ Adds + Sets < MaxMut
+SetSmoother == /\ pc = "idle" /\ Sets < MaxSets /\ Adds + Sets + AddVoids < MaxMut
                /\ smo' = AltSmo
                /\ cache' = IF "stalesmoother" \in Wrong THEN cache ELSE <<>>
                /\ obs' = <<>> /\ log' = Append(log, "set")
                /\ UNCHANGED <<shape, rank, smo0, data, b, pc, ax, tmp>> /\ UNCHANGED vars
-SNext == ReadCached \/ ReadStart \/ LoopStep \/ LoopEnd \/ AddInPlaceData \/ SetSmoother
+(* r.add(VoidResult()) : the void result is neutral - the data and the cached dataSmooth stay as they are *)
+AddVoidInPlace == /\ pc = "idle" /\ AddVoids < 1 /\ Adds + Sets + AddVoids < MaxMut
+                  /\ obs' = <<>> /\ log' = Append(log, "addvoid")
+                  /\ UNCHANGED <<shape, rank, smo, smo0, data, b, pc, ax, tmp, cache>> /\ UNCHANGED vars
+SNext == ReadCached \/ ReadStart \/ LoopStep \/ LoopEnd \/ AddInPlaceData \/ SetSmoother \/ AddVoidInPlace
 Spec17 == SInit /\ [][SNext]_<<svars, vars>>
 
 (* ---- C17 *)
